@@ -170,7 +170,9 @@ impl Scenario for ProgressStub {
         json!({
             "elt": *g.pick(&["f64", "f64", "f32", "i32"]),
             "n_chains": nc, "dim": g.usize(1, 6), "n_collect": n_collect, "n_discard": n_discard,
-            "inner_points": g.range(0, 2),
+            // slow workers: many scheduling points inside one transition, so that the reporter polls
+            // hundreds of times before the first message / between two messages
+            "inner_points": if g.bool(1, 10) { g.range(20, 60) } else { g.range(0, 2) },
             "special": g.bool(1, 4),
             "sim": gen_sim(g, nc + 2, true),
         })
